@@ -166,8 +166,18 @@ def body(case, ctx, tmp):
             rec_obs.clear()
         n_before = len(ran1)
         rec.n = 10 ** 9  # no further stop injection
+        # the second run resumes after the first, repeats its last epoch, or starts over from the first run's start /
+        # from epoch 1 with the same callback objects: epoch NUMBERS may recur, every due epoch of every run is acted on
+        mode2 = (i // 6) % 4
         s2 = (ran1[-1] + 1) if ran1 else start
-        run(s2, s2 + int(rng.integers(1, 5)))
+        if ran1 and mode2 == 1:
+            s2 = ran1[-1]
+        elif mode2 == 2:
+            s2 = start
+        elif mode2 == 3:
+            s2 = 1
+        ctx.seen("second_run_starts", ["resume", "repeat-last-epoch", "same-start", "from-1"][mode2])
+        run(s2, max(s2, (ran1[-1] if ran1 else start)) + int(rng.integers(1, 5)))
         ran_all = [e["epoch"] for e in log if e["type"] == "cb" and e["event"] == "epoch_start"]
         ran2 = ran_all[n_before:]
         check_all(ctx, tags, (ran2 if clear else ran_all), (pm1, pm2, po, psv, plg), ev1, ev2, evo, rec_metric, rec_obs, rec_log, snaps,
